@@ -165,6 +165,13 @@ def extraction_region(ctx, R):
     return info
 
 
+def norm_id(fid):
+    """rustc prints serde's traits through whichever `const _: () = { extern crate serde as _serde; .. }` block it
+    meets first (`api_description::_::_serde::Deserializer`, with usdt-probes `dtrace::_::_serde::..`): not stable
+    across feature configurations, so keys use the plain crate path."""
+    return re.sub(r"\b(?:\w+::)+_::_serde::", "serde::", fid)
+
+
 # --------------------------------------------------------------------------- panic sites
 PANIC_CALLS = [
     (r"core::panicking::|std::rt::begin_panic|std::rt::panic_|std::panicking::|panic::resume_unwind$|process::(abort|exit)$|hint::unreachable_unchecked$|intrinsics::(abort|unreachable)$", "panic"),
